@@ -604,6 +604,19 @@ func tries(bodies []Act, types []string, maxC int, cbodies []Act, finals []*Act,
 	}
 }
 
+// d1iCatchBodies: only exits that keep the repetition going (a break / return out of the loop
+// would leave a single throw, whose verdict could depend on earlier runs in the same process).
+func d1iCatchBodies(ctx string) []Act {
+	r := []Act{{K: "m"}}
+	if ctxIsLoop(ctx) {
+		r = append(r, Act{K: "cnt"})
+	}
+	if ctx == "calls" {
+		r = append(r, Act{K: "ret"})
+	}
+	return r
+}
+
 var families = []string{"d1", "d1x", "d1i", "d2body", "d2catch", "d2fin", "d3"}
 
 // enumerate calls f with every program of the family in the context, in a fixed order. The
@@ -634,7 +647,7 @@ func enumerate(b bounds, fam, ctx string, f func(Prog)) {
 		// catch types over the chain plus matching / non-matching class types; the reference picks
 		// the same handler on every repetition
 		tries(acts([]string{"tE3", "cE3"}, "top", false), []string{"J1", "J2", "J3", "I", "E1", "Exception", "Throwable"}, 2,
-			acts([]string{"m"}, ctx, false), fins([]string{"-", "m"}, "top"), emit)
+			d1iCatchBodies(ctx), fins([]string{"-", "m"}, "top"), emit)
 	case "d2body":
 		// inner try is the outer try's body
 		tries(acts(b.D2Body, ctx, false), b.D2Types, b.D2MaxC, acts(b.D2Catch, ctx, false), fins(b.Fins, ctx), func(in Try) {
